@@ -144,7 +144,9 @@ pub fn eval_c13(line: &str) -> String {
         let first = printed(&v, &o);
         disturb();
         let second = printed(&v, &o);
-        if first == second { hex_str(&first) } else { format!("UNSTABLE {} / {}", hex_str(&first), hex_str(&second)) }
+        // formatter flags do not reach the pieces
+        let flagged = format!("{:>9.2}", v.print_with(o.to_options()));
+        if first == second && flagged == first { hex_str(&first) } else { format!("UNSTABLE {} / {}", hex_str(&first), hex_str(&second)) }
     })
 }
 
@@ -184,6 +186,10 @@ pub fn eval_c08(line: &str) -> String {
         let b = v.to_string();
         let c = format!("{}", v);
         let d: String = String::from(v.clone());
+        // Display under formatter flags is still the compact text (nothing padded, nothing
+        // "alternate"); folded into the third column so that the line format is unchanged
+        let flags_ok = format!("{:#}", v) == c && format!("{:>12}", v) == c && format!("{:<3.1}", v) == c && format!("{}", &v) == c;
+        let c = if flags_ok { c } else { format!("FLAGS-CHANGE-DISPLAY {c}") };
         format!("{} {} {} {}", hex_str(&a), hex_str(&b), hex_str(&c), hex_str(&d))
     })
 }
